@@ -182,6 +182,24 @@ func c01GoldenDir() string {
 	return filepath.Join(d, "golden", "C01")
 }
 
+// c01KeysWant looks the case up in the golden file (replay of a golden mismatch).
+func c01KeysWant(c *c01KeysCase) *c01KeysOut {
+	b, err := os.ReadFile(filepath.Join(c01GoldenDir(), "obfs4keys.json"))
+	if err != nil {
+		return nil
+	}
+	var f c01KeysGoldenFile
+	if json.Unmarshal(b, &f) != nil {
+		return nil
+	}
+	for i := range f.Records {
+		if f.Records[i].Case.LibVer == c.LibVer && bytes.Equal(f.Records[i].Case.Secret, c.Secret) {
+			return &f.Records[i].Want
+		}
+	}
+	return nil
+}
+
 func TestVerif_C01_obfs4keys(t *testing.T) {
 	rec := vh.NewRec("C01", "obfs4keys", "obfs4 node keys (private, public, node id) from station (GenSharedKeys reader -> GetIdentifier/generateObfs4Keys), client (PrepareKeys -> keys) and independent reference over rapid-generated secrets x libver, preceded by the replay of /verif/golden/C01/obfs4keys.json. Every case is non-trivial. Distinct = distinct (secret, libver).")
 	defer rec.Flush()
@@ -190,7 +208,7 @@ func TestVerif_C01_obfs4keys(t *testing.T) {
 		if _, _, err := vh.LoadReplay(p, &c); err != nil {
 			t.Fatal(err)
 		}
-		c01KeysCheck(t, rec, &c, nil)
+		c01KeysCheck(t, rec, &c, c01KeysWant(&c))
 		return
 	}
 	rec.Require("golden-record", "libver0", "libver3", "libver4", "client-keygen")
